@@ -45,6 +45,9 @@ type chunkReader struct {
 	zeroAt    int   // return (0,nil) once when pos reaches this offset (-1: never)
 	zeroDone  bool
 	failAt    int // fail with errInjected once pos reaches this offset (-1: never)
+	failWith  bool // the failure is returned together with the last bytes before failAt (n > 0 and an error in one Read)
+	failOnce  bool // the failure is reported by one Read only; afterwards the reader answers io.EOF
+	failed    bool
 	pieceSize int // >0: fixed piece size instead of cuts
 	reads     int
 }
@@ -52,6 +55,10 @@ type chunkReader struct {
 func (r *chunkReader) Read(p []byte) (int, error) {
 	r.reads++
 	if r.failAt >= 0 && r.pos >= r.failAt {
+		if r.failOnce && r.failed {
+			return 0, io.EOF
+		}
+		r.failed = true
 		return 0, errInjected
 	}
 	if r.zeroAt >= 0 && !r.zeroDone && r.pos >= r.zeroAt {
@@ -84,6 +91,10 @@ func (r *chunkReader) Read(p []byte) (int, error) {
 	}
 	n := copy(p, r.data[r.pos:end])
 	r.pos += n
+	if r.failWith && r.failAt >= 0 && r.pos >= r.failAt && n > 0 {
+		r.failed = true
+		return n, errInjected
+	}
 	if r.eofWith && r.pos >= len(r.data) {
 		return n, io.EOF
 	}
@@ -119,6 +130,9 @@ var c09Dests = []struct {
 	{"[]byte", reflect.TypeOf([]byte(nil)), false},
 	{"[2]bool", reflect.TypeOf([2]bool{}), false},
 	{"uint8", reflect.TypeOf(uint8(0)), false},
+	{"int", reflect.TypeOf(int(0)), false},
+	{"int8", reflect.TypeOf(int8(0)), false},
+	{"uint", reflect.TypeOf(uint(0)), false},
 }
 
 // streamOutcome decodes up to three values from r and renders verdicts and values.
@@ -252,6 +266,8 @@ func c09Docs(c *work.Ctx) []string {
 	docs := universe.Docs(depth)
 	// numbers and strings that exercise the scanners
 	docs = append(docs, `-12.5e+3`, `"ab\u00e9\ud83d\ude00\n"`, `["\\","\"",""]`, `{"k\u0041":"v"}`, ` [ 1 , 2 ] `, "\n{\n\"a\"\n:\n1\n}\n", `"\ud83d"`, `"\ud83dx"`, `123456789`, `1.0`, `[1.5,-0,1e2]`, `"QUJD"`, `[true,false]`)
+	// number literals that are not integers (a type error for integer destinations wherever the reader stops)
+	docs = append(docs, `0.5`, `-0.5`, `0e1`, `0`, `-0`, `10.5`, `[0.5]`, `{"a":0.5}`, `100`, `-128`)
 	// invalid texts (the stream must reject them for every chunking as well)
 	docs = append(docs, `nxll`, `nul`, `tru`, `[true,fa1se]`, `"\uZZZZ"`, `0x1`, `[1,]`, `{"a":1,}`, `[1 2]`, `{"a" 1}`, `"abc`, `[`, `{"a":`, `01`, `1.`, `-`, "\"a\nb\"", `{"a":1}}`, `[1]]`, `1 2`, `{"a":tru}`, `[nul]`, `"\x"`, `"\u12"`)
 	return docs
@@ -561,6 +577,68 @@ func needBytes(b []byte) int {
 	return end
 }
 
+// c09TokenList returns the tokens a Decoder hands out until the first error.
+func c09TokenList(r io.Reader) (out []string) {
+	p, msg := util.Safe(func() {
+		d := json.NewDecoder(r)
+		for i := 0; i < 64; i++ {
+			t, err := d.Token()
+			if err != nil {
+				return
+			}
+			out = append(out, fmt.Sprintf("%T:%v", t, t))
+		}
+	})
+	if p {
+		out = append(out, "PANIC:"+util.ErrClass(msg))
+	}
+	return out
+}
+
+// c09TokensNeed: how many bytes of b must have been seen before its first n tokens are known to be complete
+// (computed with encoding/json's tokenizer on growing prefixes; a number needs the byte after it).
+func c09TokensNeed(b []byte, n int) int {
+	for k := 0; k <= len(b); k++ {
+		d := stdjson.NewDecoder(bytes.NewReader(b[:k]))
+		cnt := 0
+		var last interface{}
+		for cnt < n {
+			t, err := d.Token()
+			if err != nil {
+				break
+			}
+			last = t
+			cnt++
+		}
+		if cnt >= n {
+			// a prefix that ends in a number yields that number at EOF although more of it might follow
+			if _, isNum := last.(float64); isNum && int(d.InputOffset()) == k && k < len(b) {
+				if isNumByte(b[k]) {
+					continue
+				}
+				return k + 1
+			}
+			return k
+		}
+	}
+	return len(b) + 1
+}
+
+func isNumByte(c byte) bool {
+	return c >= '0' && c <= '9' || c == '-' || c == '+' || c == '.' || c == 'e' || c == 'E'
+}
+
+func c09FaultMode(r *chunkReader) string {
+	s := ""
+	if r.failWith {
+		s += " : error returned together with data"
+	}
+	if r.failOnce {
+		s += " : error reported once, then EOF"
+	}
+	return s
+}
+
 func c09Faults(c *work.Ctx) {
 	docs := universe.Docs(2)
 	docs = append(docs, `-12.5e+3`, `"ab\u00e9\ud83d\ude00\n"`, ` [ 1 , 2 ] `, `123456789`, `12 `, `[12,345]`)
@@ -574,11 +652,14 @@ func c09Faults(c *work.Ctx) {
 				continue
 			}
 			for k := 0; k <= len(b); k++ {
-				for _, cut := range []int{-1, 1} {
-					r := &chunkReader{data: b, zeroAt: -1, failAt: k}
-					if cut > 0 && k > 1 {
+				// how the failure is delivered: (0, err) on every later Read; together with the last bytes; only once,
+				// io.EOF afterwards (a reader need not repeat an error it has reported)
+				for mode := 0; mode < 8; mode++ {
+					cut := mode&1 != 0
+					r := &chunkReader{data: b, zeroAt: -1, failAt: k, failWith: mode&2 != 0, failOnce: mode&4 != 0}
+					if cut && k > 1 {
 						r.cuts = []int{k / 2}
-					} else if cut > 0 {
+					} else if cut {
 						continue
 					}
 					got := streamOutcome(r, d.t, d.num)
@@ -589,11 +670,45 @@ func c09Faults(c *work.Ctx) {
 						continue
 					}
 					if strings.HasPrefix(got, "v(") && k < need {
-						c.Violation(fmt.Sprintf("reader failure swallowed : %s : failure %s", d.name, tokenAt(b, k)), fmt.Sprintf("%s failing after %d bytes", doc, k),
+						c.Violation(fmt.Sprintf("reader failure swallowed : %s : failure %s%s", d.name, tokenAt(b, k), c09FaultMode(r)), fmt.Sprintf("%s failing after %d bytes%s", doc, k, c09FaultMode(r)),
 							fmt.Sprintf("the reader fails after %d of %d bytes (the first value needs %d) but Decode returns a value: %s", k, len(b), need, clip([]byte(got))))
 					}
 					if !strings.Contains(got, "R") && !strings.HasPrefix(got, "v(") && k < need && !strings.HasPrefix(got, "x") {
-						c.Violation(fmt.Sprintf("reader failure not reported : %s : %s", d.name, c09Verdicts(got)), fmt.Sprintf("%s failing after %d bytes", doc, k), got)
+						c.Violation(fmt.Sprintf("reader failure not reported : %s : %s%s", d.name, c09Verdicts(got), c09FaultMode(r)), fmt.Sprintf("%s failing after %d bytes%s", doc, k, c09FaultMode(r)), got)
+					}
+				}
+			}
+			// Token under the same failures (once per document): every token handed out must be a token of the
+			// complete document, in order, and must lie entirely within the bytes delivered before the failure — a
+			// number that ends where the delivered bytes end is not known to be complete
+			if di == dests[0] {
+				full := c09TokenList(bytes.NewReader(b))
+				for k := 0; k <= len(b); k++ {
+					for mode := 0; mode < 4; mode++ {
+						r := &chunkReader{data: b, zeroAt: -1, failAt: k, failWith: mode&1 != 0, failOnce: mode&2 != 0}
+						got := c09TokenList(r)
+						c.Count("faulted_token_runs", 1)
+						bad := ""
+						if len(got) > 0 && strings.HasPrefix(got[len(got)-1], "PANIC") {
+							bad = "panic"
+						}
+						for i, t := range got {
+							if bad != "" {
+								break
+							}
+							if i >= len(full) || t != full[i] {
+								bad = fmt.Sprintf("token %d is %s, which is not token %d of the complete document", i, t, i)
+							}
+						}
+						if bad == "" && k < len(b) && len(got) > 0 {
+							// the last token returned must be delimited inside b[:k]
+							if n := len(got); c09TokensNeed(b, n) > k {
+								bad = fmt.Sprintf("%d tokens were handed out although the reader failed after %d bytes (they need %d)", n, k, c09TokensNeed(b, n))
+							}
+						}
+						if bad != "" {
+							c.Violation(fmt.Sprintf("reader failure : Token : %s%s", c09DocClass(b), c09FaultMode(r)), fmt.Sprintf("%s failing after %d bytes%s", doc, k, c09FaultMode(r)), bad+fmt.Sprintf(" ; tokens %v", got))
+						}
 					}
 				}
 			}
